@@ -5,8 +5,8 @@ META = {
     "explanation": "CombineOutputs.start_execution creates, for every listed (dependency id, directory) whose directory is non-empty, a link "
                    "named after the dependency that resolves to that directory, replaces only its own links and reports any other entry "
                    "(CB1); the planner pairs each dependency with its own selected output, in order, on the second visit (CB2, PL9); "
-                   "duplicate dependency names are rejected (CB3).",
-    "rules": ["CB1", "CB2", "CB3", "PL9", "W1(planner)", "PL10"],
+                   "duplicate dependency names are rejected (CB3); a combine task is never treated as cached (PL7: only RunExperiment overrides should_run), so its links are rebuilt whenever it is needed.",
+    "rules": ["CB1", "CB2", "CB3", "PL9", "W1(planner)", "PL10", "PL7"],
     "assumptions": ["dangling pre-existing links (manually deleted targets) are out of scope"],
     "trusted": ["ast parser"],
 }
@@ -19,3 +19,5 @@ def run(A, rep, tier):
     F = P.rules_planner_links(A, rep)
     P.rule_w1_planner(A, rep, F)
     P.rule_pl9_snapshot(A, rep, F)
+    # a combine task is never treated as cached: its links are rebuilt whenever it is needed
+    P.rule_pl7_overriders(A, rep)
